@@ -15,6 +15,7 @@ type Clause struct {
 	Label string
 	Tags  []string // property ids the clause is claimed for (empty = all properties listing the function)
 	N     int      // loop / call ordinal
+	Static bool    // atcall: N counts call sites in source order, not calls executed
 	Name  string   // let name, or anchor callee
 	E     *Expr
 	Src   string
@@ -269,17 +270,18 @@ func (cs *ContractSet) parseFile(path string) error {
 				return errf("clause outside function")
 			}
 			{
-				m := regexp.MustCompile(`^(\S+?)#(\d+)\s+(.*)$`).FindStringSubmatch(rest)
+				// callee#n: the n-th call of callee executed on the path; callee@k: the k-th call site of callee in source order
+				m := regexp.MustCompile(`^(\S+?)([#@])(\d+)\s+(.*)$`).FindStringSubmatch(rest)
 				if m == nil {
 					return errf("bad atcall clause")
 				}
-				n, _ := strconv.Atoi(m[2])
-				label, tags, body := parseLabel(m[3])
+				n, _ := strconv.Atoi(m[3])
+				label, tags, body := parseLabel(m[4])
 				e, err := parseExpr(body)
 				if err != nil {
 					return errf("%v", err)
 				}
-				cur.Clauses = append(cur.Clauses, &Clause{Kind: "atcall", Name: m[1], N: n, Label: label, Tags: tags, E: e, Src: body, Line: l.no})
+				cur.Clauses = append(cur.Clauses, &Clause{Kind: "atcall", Name: m[1], N: n, Static: m[2] == "@", Label: label, Tags: tags, E: e, Src: body, Line: l.no})
 			}
 		case "cut":
 			// cut before <callee>@<k> [label:] expr – a merge point just before the k-th call of callee in source
